@@ -567,3 +567,70 @@ def rule_no_passthrough(db, chk, cfg, rule="WRAP.no-passthrough"):
     if n < 8:
         raise AnalysisBroken("WRAP.no-passthrough: only %d returns of boolean wrappers found in configuration %s" % (n, cfg))
     return n
+
+
+# ---------------------------------------------------------------------------
+# PRECISION.forwarded: the precision a caller asks for is the precision used
+# ---------------------------------------------------------------------------
+
+PREC_NAMES = ("precision", "decimal_prec", "decimalPlaces", "decimal_places")
+
+
+def rule_precision_forwarded(db, chk, cfg, rule="PRECISION.forwarded"):
+    """Every library function with a precision parameter uses it for more than validation: it reaches pow(10, .), a ClipperD constructor, or
+    the precision parameter of another function; and no ClipperD is default-constructed (precision 2) inside a function that was
+    given a precision.  Otherwise the floating-point API silently works on another grid than the one asked for."""
+    n = 0
+    for f in db.funcs:
+        if f.is_pattern or f.body is None or not f.file or not ("/clipper2/" in f.file or "/Clipper2Lib/src/" in f.file):
+            continue
+        pp = [p for p in f.params if p.get("name") in PREC_NAMES and (qt(p) or "").replace("const ", "").strip() in ("int", "int &")]
+        if not pp or f.name == "CheckPrecisionRange":
+            continue
+        pid = pp[0].get("id")
+        par = {}
+        for x in walk(f.body):
+            for c in kids(x):
+                if isinstance(c, dict):
+                    par[id(c)] = x
+        # member initialisers of constructors count as body
+        roots = [f.body] + list(getattr(f, "inits", []) or [])
+        used = []
+        for root in roots:
+            for r in walk(root):
+                if r.get("kind") != "DeclRefExpr" or r.get("referencedDecl", {}).get("id") != pid:
+                    continue
+                p = par.get(id(r))
+                while p is not None and p.get("kind") in ("ImplicitCastExpr", "ParenExpr", "CXXStaticCastExpr", "CStyleCastExpr", "CXXFunctionalCastExpr", "UnaryOperator"):
+                    p = par.get(id(p))
+                if p is None:
+                    used.append("expression")
+                    continue
+                k = p.get("kind")
+                if k in ("CallExpr", "CXXMemberCallExpr"):
+                    nm = db.callee(p)[0]
+                    used.append("validation" if nm == "CheckPrecisionRange" else "call:%s" % nm)
+                elif k in ("CXXConstructExpr", "CXXTemporaryObjectExpr"):
+                    used.append("ctor:%s" % (dqt(p) or "").replace("Clipper2Lib::", ""))
+                else:
+                    used.append(k)
+        real = [u for u in used if u != "validation"]
+        n += 1
+        ok = bool(real)
+        chk.instance(rule, {"function": f.qual, "sig": f.sig[:60], "uses": sorted(set(used)), "cfg": cfg}, ok=ok)
+        if not ok:
+            chk.violation(rule, f.qual, "%s|unused" % f.sig[:40], "%s [%s]: the parameter '%s' is %s but never reaches a scale (pow(10, .)), a ClipperD or another "
+                          "function's precision: the operation runs at another precision than the caller asked for" % (f.qual, f.sig[:50], pp[0].get("name"),
+                                                                                                          "only validated" if used else "not used at all"), f.where, cfg=cfg)
+        for c in walk(f.body):
+            if c.get("kind") in ("CXXConstructExpr", "CXXTemporaryObjectExpr") and (dqt(c) or "").replace("Clipper2Lib::", "") == "ClipperD":
+                args = [a for a in kids(c) if isinstance(a, dict) and a.get("kind") and a.get("kind") != "CXXDefaultArgExpr"]
+                n += 1
+                ok = bool(args)
+                chk.instance(rule, {"function": f.qual, "ClipperD_constructed_with": canon(args[0])[:30] if args else "default precision", "cfg": cfg}, ok=ok)
+                if not ok:
+                    chk.violation(rule, f.qual, "%s|ClipperD()" % f.sig[:40], "%s [%s] constructs a ClipperD with the default precision although it was given '%s'"
+                                  % (f.qual, f.sig[:50], pp[0].get("name")), where(c), cfg=cfg)
+    if n < 10:
+        raise AnalysisBroken("PRECISION.forwarded: only %d precision parameters / ClipperD constructions found in configuration %s" % (n, cfg))
+    return n
